@@ -66,7 +66,9 @@ def guarded(fn: Callable[[Any], Optional[tuple]], case: Any) -> Optional[tuple]:
         return fn(case)
     except _Violation:
         raise
-    except Exception as e:
+    except (KeyboardInterrupt, SystemExit, GeneratorExit):
+        raise
+    except BaseException as e:          # incl. asyncio.CancelledError leaking out of the library to a caller that cancelled nothing
         from . import harness
         tb = e.__traceback__
         repo = os.path.realpath(harness.REPO) + os.sep
@@ -286,7 +288,9 @@ def _run_shard(args) -> dict:
             "known_hits": ctx.known_hits, "excluded_known": ctx.excluded_known, "notes": ctx.notes,
             "assumptions": ctx.assumptions, "sweeps": ctx.sweeps, "extra": ctx.extra, "wall": time.time() - t0,
         }
-    except Exception:
+    except (KeyboardInterrupt, SystemExit):
+        raise
+    except BaseException:               # a worker must always report back: a lost task would hang the whole check
         return {"ok": False, "shard": shard, "error": traceback.format_exc()}
 
 
@@ -355,9 +359,27 @@ def main(argv=None) -> int:
     if nshards == 1:
         results = [_run_shard(jobs[0])]
     else:
+        import concurrent.futures as cf
         mp = multiprocessing.get_context("fork")
-        with mp.Pool(nshards) as pool:
-            results = pool.map(_run_shard, jobs, chunksize=1)
+        # a budget on the whole run: a hang is a harness error (exit 2), never a silent stall
+        budget = float(os.environ.get("VERIF_BUDGET_S", "3600" if a.tier == "quick" else "21600"))
+        results = []
+        ex = cf.ProcessPoolExecutor(max_workers=nshards, mp_context=mp)
+        try:
+            futs = [ex.submit(_run_shard, j) for j in jobs]
+            deadline = time.time() + budget
+            for j, f in zip(jobs, futs):
+                try:
+                    results.append(f.result(timeout=max(1.0, deadline - time.time())))
+                except cf.TimeoutError:
+                    results.append({"ok": False, "shard": j[3], "error": f"shard did not finish within the {budget:.0f} s budget of the run"})
+                except BaseException as e:      # BrokenProcessPool: a worker died
+                    results.append({"ok": False, "shard": j[3], "error": f"worker process failed: {e!r}"})
+        finally:
+            for proc in list(getattr(ex, "_processes", {}).values()):
+                if any(not r["ok"] for r in results):
+                    proc.kill()
+            ex.shutdown(wait=not any(not r["ok"] for r in results), cancel_futures=True)
 
     errors = [r for r in results if not r["ok"]]
     if errors:
